@@ -48,6 +48,9 @@ type PropConf struct {
 	Bounds      map[string]string `json:"bounds_text"`
 	FmtInts     bool              `json:"fmt_ints"`
 	HashInj     bool              `json:"hash_injective"`
+	Sched       bool              `json:"sched"`            // harnesses start goroutines: native builds use the schedule-replay instrumentation
+	SchedPkgs   []string          `json:"sched_instrument"` // extra package import paths to instrument (the harness packages always are)
+	MaxPreempt  int               `json:"max_preempt"`
 }
 
 func loadProps(verif string) (map[string]*PropConf, error) {
@@ -165,6 +168,8 @@ type nativeResult struct {
 	AssumeFailed bool              `json:"assume_failed"`
 	Panic        string            `json:"panic"`
 	Stack        string            `json:"stack"`
+	Deadlock     bool              `json:"deadlock"`
+	SchedDesync  bool              `json:"sched_desync"`
 }
 
 type nativePkg struct {
@@ -230,7 +235,7 @@ func (np *nativePkg) run(repo string, env []string, timeout time.Duration) (stri
 	return string(out), err
 }
 
-func (np *nativePkg) replay(work, repo, harness string, vals map[string]uint64, tag string) (*nativeResult, string, error) {
+func (np *nativePkg) replay(work, repo, harness string, vals map[string]uint64, sched []int, maxPre int, tag string) (*nativeResult, string, error) {
 	dir := filepath.Join(work, "replay")
 	os.MkdirAll(dir, 0o755)
 	file := filepath.Join(dir, harness+"-"+tag+".json")
@@ -238,7 +243,12 @@ func (np *nativePkg) replay(work, repo, harness string, vals map[string]uint64, 
 	for k, v := range vals {
 		sv[k] = strconv.FormatUint(v, 10)
 	}
-	raw, _ := json.MarshalIndent(map[string]any{"harness": harness, "package": np.rel, "vals": sv}, "", " ")
+	doc := map[string]any{"harness": harness, "package": np.rel, "vals": sv}
+	if len(sched) > 0 {
+		doc["sched"] = sched
+		doc["max_preempt"] = maxPre
+	}
+	raw, _ := json.MarshalIndent(doc, "", " ")
 	if err := os.WriteFile(file, raw, 0o644); err != nil {
 		return nil, file, err
 	}
@@ -357,6 +367,11 @@ func cmdCheck(args []string) int {
 	findings := loadFindings(verif)
 	evPath := filepath.Join(verif, "evidence", prop+".json")
 	os.Remove(evPath)
+	if onlyStale, _ := filepath.Glob(filepath.Join(verif, "evidence", "replays", prop+"-*.json")); len(onlyStale) > 0 {
+		for _, f := range onlyStale {
+			os.Remove(f) // replay files belong to one run: stale ones from earlier runs are dropped
+		}
+	}
 
 	ov, err := sx.BuildOverlay(repo, verif)
 	if err != nil {
@@ -449,6 +464,24 @@ func cmdCheck(args []string) int {
 			}
 			ov[virt] = real
 		}
+		if pc.Sched {
+			var ipkgs []string
+			for _, rel := range pc.Pkgs {
+				ipkgs = append(ipkgs, sx.ModulePath+"/"+rel)
+			}
+			ipkgs = append(ipkgs, pc.SchedPkgs...)
+			iov, err := sx.InstrumentForSched(w, ipkgs, filepath.Join(work, "sched"))
+			if err != nil {
+				fmt.Fprintln(os.Stderr, "schedule-replay instrumentation failed:", err)
+				fmt.Printf("INCONCLUSIVE property=%s reason=schedule-replay-instrumentation-failed\n", prop)
+			}
+			for k, v := range iov {
+				if _, isHarness := ov[k]; isHarness {
+					// harness files are overlays themselves: the instrumented text replaces them
+				}
+				ov[k] = v
+			}
+		}
 		for _, rel := range pc.Pkgs {
 			rel := rel
 			ch := make(chan struct{})
@@ -495,7 +528,7 @@ func cmdCheck(args []string) int {
 		for _, f := range pc.Merge {
 			mergeSet[f] = true
 		}
-		return b, sx.Config{FmtInts: pc.FmtInts, HashInjective: pc.HashInj, NoIfConv: os.Getenv("VERIF_NOIFCONV") != "", Merge: mergeSet, Unwind: b.Unwind, MaxSteps: b.Steps, MaxPaths: b.MaxPaths, MaxTime: maxTime, SolverKind: *solverKind, SolverMS: b.SolverMS,
+		return b, sx.Config{FmtInts: pc.FmtInts, HashInjective: pc.HashInj, MaxPreempt: pc.MaxPreempt, NoIfConv: os.Getenv("VERIF_NOIFCONV") != "", Merge: mergeSet, Unwind: b.Unwind, MaxSteps: b.Steps, MaxPaths: b.MaxPaths, MaxTime: maxTime, SolverKind: *solverKind, SolverMS: b.SolverMS,
 			BranchMS: b.BranchMS, Tier: tierN}
 	}
 	// explore all harnesses of a package concurrently
@@ -650,14 +683,19 @@ func cmdCheck(args []string) int {
 					for k, v := range ce.Choices {
 						v2[k] = uint64(v)
 					}
-					nr, file, err := np.replay(work, repo, r.Name, v2, sanitize(id)+"-"+strconv.Itoa(i))
+					nr, file, err := np.replay(work, repo, r.Name, v2, ce.Sched, maxPreemptOf(conf), sanitize(id)+"-"+strconv.Itoa(i))
 					if err != nil {
 						fmt.Fprintln(os.Stderr, "replay error:", err)
 						continue
 					}
 					ok := false
+					if nr.SchedDesync {
+						fmt.Fprintf(os.Stderr, "replay of %s: native schedule diverged from the recorded one\n", id)
+					}
 					if g.First.Kind == "panic" {
-						ok = nr.Panic != ""
+						ok = nr.Panic != "" && !nr.Deadlock
+					} else if g.First.Kind == "deadlock" {
+						ok = nr.Deadlock
 					} else {
 						for _, f := range nr.Failed {
 							if f == id {
@@ -916,3 +954,10 @@ func equalStrings(a, b []string) bool {
 }
 
 var _ = bytes.Compare
+
+func maxPreemptOf(c sx.Config) int {
+	if c.MaxPreempt > 0 {
+		return c.MaxPreempt
+	}
+	return 3
+}
